@@ -187,9 +187,9 @@ def flatten(cd):
 
 
 EDITS = ["none", "none", "insert_nops", "insert_nops_big", "duplicate_instruction", "drop_instruction", "drop_additional_args", "shift_override",
-         "collide_override", "collide_override_eq", "retarget_jump", "clear_lines", "append_block"]
+         "collide_override", "collide_override_eq", "retarget_jump", "clear_lines", "append_block", "negative_override"]
 # edits after which the position overrides may be inconsistent (to_code may then raise instead)
-MAY_BE_INCONSISTENT = set(["drop_instruction", "drop_additional_args", "shift_override", "collide_override", "collide_override_eq"])
+MAY_BE_INCONSISTENT = set(["drop_instruction", "drop_additional_args", "shift_override", "collide_override", "collide_override_eq", "negative_override"])
 
 
 def edit(cd, rng, op):
@@ -233,6 +233,26 @@ def edit(cd, rng, op):
         if not cd._additional_args:
             return None, "no additional args"
         return dc.replace(cd, _additional_args=()), "dropped %d additional args" % len(cd._additional_args)
+    if op == "negative_override":
+        # a position below zero (any integer is a valid JSON value for the field): the first use of some table entry is pinned there,
+        # the entries after it keep counting upwards, so the largest position can still equal the table length minus one
+        seen = set()
+        cands = []
+        for bi, b in enumerate(blocks):
+            for ii, ins in enumerate(b):
+                t = type(ins.arg).__name__
+                if t in ("Name", "Varname", "Constant", "Cellvar") and getattr(ins.arg, "_index_override", None) is None:
+                    k = (t, repr(ins.arg))
+                    if k not in seen:
+                        seen.add(k)
+                        cands.append((bi, ii))
+        if not cands:
+            return None, "no candidate"
+        bi, ii = cands[0] if rng.random() < 0.6 else rng.choice(cands)
+        ins = blocks[bi][ii]
+        neg = rng.choice([-1, -1, -2, -300])
+        blocks[bi][ii] = dc.replace(ins, arg=dc.replace(ins.arg, _index_override=neg))
+        return dc.replace(cd, blocks=tuple(tuple(x) for x in blocks)), "%s at block %d index %d pinned to position %d" % (type(ins.arg).__name__, bi, ii, neg)
     if op in ("shift_override", "collide_override", "collide_override_eq"):
         cands = [(bi, ii) for bi, b in enumerate(blocks) for ii, ins in enumerate(b)
                  if getattr(ins.arg, "_index_override", None) is not None or
